@@ -37,7 +37,9 @@ func (d *dec) gcol(addr uint64) *GCol {
 		osz := c.length("object size")
 		if idx == 0 {
 			// free space object: its size covers its own header and everything to the end of the collection
-			if osz != uint64(len(b)-opos) {
+			if osz+uint64(ohdr) == uint64(len(b)-opos) {
+				d.deviate("gcol-free-size-excludes-header", "%s at 0x%x: free-space object at +%d has size %d, %d bytes remain in the collection (the size of object 0 includes its own %d-byte header)", what, a, opos, osz, len(b)-opos, ohdr)
+			} else if osz != uint64(len(b)-opos) {
 				d.fail("%s at 0x%x: free-space object at +%d has size %d, %d bytes remain in the collection", what, a, opos, osz, len(b)-opos)
 			}
 			g.FreeSpace = osz
@@ -60,7 +62,7 @@ func (d *dec) gcol(addr uint64) *GCol {
 
 // vlenRef decodes one on-disk variable-length element (spec: length(4), collection address(O), object index(4)).
 // It returns the heap object bytes and the element count stored in the length word.
-func (d *dec) vlenRef(ref []byte, what string) (obj []byte, count uint32) {
+func (d *dec) vlenRef(ref []byte, what string) (obj []byte, count uint32, hasCount bool) {
 	c := d.cursor(ref, 0, what)
 	count = c.u32("sequence length")
 	addr := c.addr("global heap collection address")
@@ -69,7 +71,7 @@ func (d *dec) vlenRef(ref []byte, what string) (obj []byte, count uint32) {
 	var strictErr string
 	if addr == 0 && idx == 0 || addr == UndefAddr {
 		// null sequence
-		return nil, count
+		return nil, count, true
 	}
 	func() {
 		defer func() {
@@ -97,7 +99,7 @@ func (d *dec) vlenRef(ref []byte, what string) (obj []byte, count uint32) {
 		strictOK = true
 	}()
 	if strictOK {
-		return obj, count
+		return obj, count, true
 	}
 	// library layout: collection address (O), object index (4), padding (4)
 	c2 := d.cursor(ref, 0, what)
@@ -109,11 +111,11 @@ func (d *dec) vlenRef(ref []byte, what string) (obj []byte, count uint32) {
 		g := d.gcol(addr2)
 		if o, ok := g.Objects[uint16(idx2)]; ok {
 			d.deviate("vlen-element-no-length", "%s: element is stored as address(%d)+index(4)+zero(4) without the leading 4-byte length (strict reading: %s)", what, d.O, strictErr)
-			return o, uint32(len(o))
+			return o, 0, false
 		}
 	}
 	d.fail("%s", strictErr)
-	return nil, 0
+	return nil, 0, false
 }
 
 // ResolveVLen maps one on-disk variable-length element to the bytes of the global heap object it names.
@@ -140,7 +142,7 @@ func (f *File) ResolveVLen(ref []byte) (out []byte, err error) {
 	if len(ref) != 8+f.OffsetSize {
 		return nil, fmt.Errorf("variable-length element must be %d bytes, got %d", 8+f.OffsetSize, len(ref))
 	}
-	obj, _ := d.vlenRef(ref, "variable-length element")
+	obj, _, _ := d.vlenRef(ref, "variable-length element")
 	return obj, nil
 }
 
@@ -188,7 +190,10 @@ func (d *dec) scanElems(t *Datatype, data []byte, n uint64, what string, depth i
 			if int(sz) != 8+d.O {
 				d.fail("%s: variable-length datatype has size %d, the on-disk element is %d bytes", what, sz, 8+d.O)
 			}
-			obj, cnt := d.vlenRef(el, fmt.Sprintf("%s element #%d", what, i))
+			obj, cnt, hasCnt := d.vlenRef(el, fmt.Sprintf("%s element #%d", what, i))
+			if obj != nil && t.Base != nil && !hasCnt && t.Base.Size > 0 {
+				cnt = uint32(uint64(len(obj)) / uint64(t.Base.Size))
+			}
 			if obj != nil && t.Base != nil {
 				need := uint64(cnt) * uint64(t.Base.Size)
 				if need > uint64(len(obj)) {
